@@ -701,7 +701,11 @@ impl UnifiedCommandExecutor {
             }
             
             StringCommand::DecrBy { key, decrement } => {
-                let result = self.storage.incr_by(db, key, -(decrement))?;
+                let delta = match decrement.checked_neg() {
+                    Some(d) => d,
+                    None => return Ok(RespFrame::error("ERR decrement would overflow")),
+                };
+                let result = self.storage.incr_by(db, key, delta)?;
                 Ok(RespFrame::Integer(result))
             }
             
